@@ -26,7 +26,7 @@ Template language (everything else is copied verbatim):
   @*/
 
 <file> is relative to the repository root, or `dep:<crate>-<version>/<path>` for a vendored
-dependency in the cargo registry.  opts: `refcell` (R5), `novis` (do not add `pub`), `name=<new fn name>`.
+dependency in the cargo registry.  opts: `refcell` (R5), `novis` (do not add `pub`), `name=<new fn name>`, `mutself` (R15).
 """
 import glob
 import os
@@ -226,6 +226,15 @@ def build_fn(unit, file_spec, item_spec, opts, sections, log, probes=False):
                     info.lost.append("sub `%s` matched nothing" % m.group(1))
                     info.lost_obligations.append("the assert(s) carried by sub `%s`" % m.group(1))
             log.hit("R8 per-function substitution `%s` => `%s`" % (m.group(1), m.group(2)), n)
+    if "mutself" in opts:
+        # R15: Verus has no `mut self` parameter: the parameter becomes `self` and the body works on a local rebinding
+        mm = re.search(r"\(\s*mut\s+self\b", text)
+        if mm:
+            ob0 = text.index("{", mm.end())
+            head = text[:ob0 + 1].replace(mm.group(0), "(self", 1)
+            body = re.sub(r"\bself\b", "vp_self", text[ob0 + 1:])
+            text = head + "\n        let mut vp_self = self;" + body
+            log.hit("R15 `mut self` parameter rebound to a mutable local (Verus has no `mut self`)", 1)
     # leading attributes kept by R1 (derive(Debug), repr) stay in front of the item
     lead = ""
     while True:
